@@ -33,12 +33,14 @@ type ezInner struct {
 }
 
 type ezOuter struct {
+	*EzEmbBurst
 	Count int      `dials:"vfccount" dialsalias:"vfclegacycount"`
 	Mid   *ezInner `dials:"vfcmid" dialsalias:"vfcoldmid"`
 	Ratio float64  `dials:"vfcratio"`
 }
 
 type ezConfig struct {
+	EzEmbTint
 	Path  string              `dials:"vfcpath"`
 	Name  string              `dials:"vfcname" dialsalias:"vfcoldname"`
 	Outer ezOuter             `dials:"vfcouter" dialsalias:"vfcoldouter"`
@@ -53,28 +55,13 @@ func (c *ezConfig) ConfigPath() (string, bool) { return c.Path, c.Path != "" }
 // ezShape mirrors ezConfig (without Path) for the model; it is derived from
 // the Go type by reflection so the two cannot drift apart.
 func ezShape() shape.Shape {
-	var rec func(t reflect.Type) []shape.Field
-	rec = func(t reflect.Type) []shape.Field {
-		var out []shape.Field
-		for i := 0; i < t.NumField(); i++ {
-			sf := t.Field(i)
-			if sf.Name == "Path" {
-				continue
-			}
-			f := shape.Field{Name: sf.Name, Words: []string{strings.ToLower(sf.Name)}, Tag: string(sf.Tag)}
-			switch {
-			case sf.Type.Kind() == reflect.Struct:
-				f.Kind, f.Fields = "struct", rec(sf.Type)
-			case sf.Type.Kind() == reflect.Pointer && sf.Type.Elem().Kind() == reflect.Struct:
-				f.Kind, f.Fields = "pstruct", rec(sf.Type.Elem())
-			default:
-				f.Kind, f.Type = "leaf", strings.ReplaceAll(sf.Type.String(), "struct {}", "struct{}")
-			}
+	var out []shape.Field
+	for _, f := range shapeOfType(reflect.TypeOf(ezConfig{})) {
+		if f.Name != "Path" {
 			out = append(out, f)
 		}
-		return out
 	}
-	return shape.Shape{Fields: rec(reflect.TypeOf(ezConfig{}))}
+	return shape.Shape{Fields: out}
 }
 
 // EzCase is a file format, a key casing and the supplied expanded leaves.
@@ -92,6 +79,7 @@ func genEz(t *rapid.T) EzCase {
 	if err != nil {
 		t.Fatalf("ez shape has no model: %v", err)
 	}
+	m.upperKeys = c.UpperKeys
 	g := &supplyGen{t: t, m: m, supply: map[string]uint64{}}
 	g.allowBoth = rapid.Bool().Draw(t, "allow_both")
 	g.fill(m.fields, "")
@@ -141,6 +129,7 @@ func runEz(c EzCase) vrt.Verdict {
 	if err != nil {
 		return vrt.Violationf("harness: %v", err)
 	}
+	m.upperKeys = c.UpperKeys
 	byKey := map[string]xleaf{}
 	for _, x := range m.expand() {
 		byKey[x.key] = x
@@ -232,6 +221,7 @@ func runEz(c EzCase) vrt.Verdict {
 		lab["expect:value"] = true
 	}
 	emptyLabels(ev.pats, c.Supply, lab)
+	embedLabels(m, ev.pats, lab)
 	nonTrivial := false
 	for i, p := range ev.pats {
 		k := "leaf"
@@ -256,7 +246,7 @@ func runEz(c EzCase) vrt.Verdict {
 func TestC14Ez(t *testing.T) {
 	vrt.Check(t, vrt.Prop[EzCase]{
 		ID: "C14", Name: "ez",
-		Rule: "fixed config type ezConfig (aliased string leaf, aliased struct holding an aliased int and an aliased pointer struct with aliased []string / int64 leaves, aliased string set, aliased string map, an unaliased struct with aliased leaves); per aliased field neither / primary / alias / both as in the other C14 checks; format json|yaml|toml|cue and Params.FileFieldNameEncoder nil|UPPER_SNAKE_CASE drawn; the file is written by the harness and read through ez.FileExtensionDecoderConfigEnvFlag with an explicit, argument-less flag source; " +
+		Rule: "fixed config type ezConfig (an embedded struct at the root and a pointer-embedded struct inside the aliased Outer struct, both with aliased leaves and no tag of their own, so their keys are promoted in JSON / Cue, the lower-cased type name in YAML, the type name in TOML, and the UPPER_SNAKE type name once FileFieldNameEncoder is set; aliased string leaf, aliased struct holding an aliased int and an aliased pointer struct with aliased []string / int64 leaves, aliased string set, aliased string map, an unaliased struct with aliased leaves); per aliased field neither / primary / alias / both as in the other C14 checks; format json|yaml|toml|cue and Params.FileFieldNameEncoder nil|UPPER_SNAKE_CASE drawn; the file is written by the harness and read through ez.FileExtensionDecoderConfigEnvFlag with an explicit, argument-less flag source; " +
 			"oracle: both => error whose innermost cause quotes the field, else View() equals defaults + supplied leaves; non-trivial = >=2 aliased field instances at different depths with different patterns; distinct = distinct case JSON",
 		Assumptions: []string{
 			"dials tags of ezConfig start with vfc, so neither the real environment nor the (empty) flag set supplies anything",
